@@ -3,6 +3,7 @@ CONSTANTS
   Tokens <- MCTokens
   MaxLen = 6
   Comps <- MCComps
+  Pool <- MCPool
 INVARIANT Laws
 INVARIANT Emit
 CHECK_DEADLOCK FALSE
